@@ -11,7 +11,7 @@ section
 variable {L X U V : Type} [DecidableEq L] [DecidableEq X]
 
 /-- the effect of executing micro-step `m` (continuation `r`) by thread `i` whose record is `t` -/
-inductive Eff (ap : U → V → V) (s : St L X U V) (i : Tid) (t : Thread L X U V) :
+inductive Eff (ap : U → V → V → V) (s : St L X U V) (i : Tid) (t : Thread L X U V) :
     Micro L X U → List (Micro L X U) → St L X U V → Prop
   | acquire (l r) (h : s.owner l = none) :
       Eff ap s i t (.acquire l) r
@@ -27,10 +27,10 @@ inductive Eff (ap : U → V → V) (s : St L X U V) (i : Tid) (t : Thread L X U 
                  log := upd s.log x (.rd i (s.cell x) :: s.log x) }
   | store (x u r) :
       Eff ap s i t (.store x u) r
-        { s with cell := upd s.cell x (ap u (t.reg x)),
-                 threads := s.threads.set i { t with pc := r, reg := upd t.reg x (ap u (t.reg x)) },
+        { s with cell := upd s.cell x (ap u (t.reg x) (s.cell x)),
+                 threads := s.threads.set i { t with pc := r, reg := upd t.reg x (ap u (t.reg x) (s.cell x)) },
                  err := upd s.err x (s.err x || (s.iters x).any (fun j => decide (j ≠ i))),
-                 log := upd s.log x (.wr i u (ap u (t.reg x)) :: s.log x) }
+                 log := upd s.log x (.wr i u (ap u (t.reg x) (s.cell x)) :: s.log x) }
   | iterBegin (x r) :
       Eff ap s i t (.iterBegin x) r
         { s with iters := upd s.iters x (i :: s.iters x), threads := s.threads.set i { t with pc := r } }
@@ -40,7 +40,7 @@ inductive Eff (ap : U → V → V) (s : St L X U V) (i : Tid) (t : Thread L X U 
   | call (b c r) : Eff ap s i t (.call b c) r { s with threads := s.threads.set i { t with pc := r } }
   | yield (r) : Eff ap s i t .yield r { s with threads := s.threads.set i { t with pc := r } }
 
-theorem step_some {ap : U → V → V} {s s' : St L X U V} {i : Tid} (h : step ap s i = some s') :
+theorem step_some {ap : U → V → V → V} {s s' : St L X U V} {i : Tid} (h : step ap s i = some s') :
     ∃ t m r, s.threads[i]? = some t ∧ t.pc = m :: r ∧ Eff ap s i t m r s' := by
   unfold step at h
   split at h
@@ -64,7 +64,7 @@ theorem step_some {ap : U → V → V} {s s' : St L X U V} {i : Tid} (h : step a
     · next r hpc => cases h; exact ⟨t, _, _, ht, hpc, .yield r⟩
 
 /-- a property preserved by every enabled step holds along every schedule -/
-theorem run_induction {ap : U → V → V} (P : St L X U V → Prop)
+theorem run_induction {ap : U → V → V → V} (P : St L X U V → Prop)
     (hstep : ∀ s i s', P s → step ap s i = some s' → P s') :
     ∀ (sched : List Tid) (s : St L X U V), P s → P (run ap s sched) := by
   intro sched
